@@ -254,6 +254,98 @@ def run_process_node(job, acc):
             return
 
 
+def run_establish(job, acc):
+    """Wiring a port ESTABLISHES its path: every path over {a (exists), n
+    and m (new keys), ..} that stays inside the tree, from a process at
+    the root or inside a compartment. The port's variable then lives at
+    the normal form of the path, walking the path from the process's
+    parent reaches that very node, and no store is ever NAMED '..'."""
+    from vivarium.core.store import generate_state
+    from vmc import probes
+    _, loc = job
+    for p in all_paths(4, ('a', 'n', 'm', '..')):
+        depth, ok = len(loc), bool(p)
+        for seg in p:
+            depth += -1 if seg == '..' else 1
+            if depth < 0:
+                ok = False
+                break
+        target = ref_normalize(loc + p)
+        if not ok or not target or target == loc or '..' in target \
+                or target[:len(loc) + 1] == loc + ('proc',) \
+                or target == ('a',)[:len(target)] and len(target) < 2 \
+                and not loc:
+            continue
+        acc.case(key=('establish', loc, p))
+        case = {'law': 'establish', 'loc': loc, 'path': p}
+        V = lambda rule, fp, msg: acc.violate(  # noqa
+            fw.violation(rule, fp, msg, case))
+        mk = lambda pid, var: probes.Probe({  # noqa
+            'pid': pid, 'ts': 1, 'log_states': False, 'update': {},
+            'schema': {'port': {var: {'_default': 1}}}})
+        processes = {'pre': mk('pre', 'z')}
+        topology = {'pre': {'port': ('a', 'deep')}}
+        node_p, node_t = processes, topology
+        for k in loc:
+            node_p = node_p.setdefault(k, {})
+            node_t = node_t.setdefault(k, {})
+        node_p['proc'] = mk('proc', 'v')
+        node_t['proc'] = {'port': p}
+        try:
+            root = generate_state(processes, topology, {})
+            tree = probes.pure(root.get_value())
+            start = root.get_path(loc)
+            reached = start.get_path(p)
+            at_normal = root.get_path(target)
+        except Exception as e:  # noqa
+            V('C17.establish', f'raises-{type(e).__name__}',
+              f'port of a process at {loc} wired to {p}: {e!r}')
+            continue
+
+        def names(t):
+            if isinstance(t, dict):
+                for k, v in t.items():
+                    yield k
+                    yield from names(v)
+        if '..' in set(names(tree)):
+            V('C17.establish', 'store-named-dotdot',
+              f'port of a process at {loc} wired to {p}: the hierarchy '
+              f'holds a store NAMED "..": {tree}')
+            continue
+        got = tree
+        for k in target:
+            got = got.get(k, {}) if isinstance(got, dict) else {}
+        if not isinstance(got, dict) or got.get('v') != 1:
+            V('C17.establish', 'variable-not-at-normal-form',
+              f'port of a process at {loc} wired to {p}: variable v is '
+              f'not at {target + ("v",)}: {tree}')
+            continue
+        if reached is not at_normal:
+            V('C17.establish', 'walk-differs-from-normal-form',
+              f'walking {p} from {loc} does not reach the node at {target}')
+
+
+def run_unordered(job, acc):
+    """paths_to_dict is the inverse of ANY enumeration of the leaves, not
+    only the depth-first one: every permutation of the (path, value) list
+    of trees with at most 4 leaves."""
+    _, shape = job
+    plain = to_plain(number_leaves(shape))
+    pairs = list(dict_to_paths((), plain))
+    if len(pairs) > 4:
+        return
+    for perm in itertools.permutations(pairs):
+        acc.case(key=('unordered', fw.jdump(shape),
+                      tuple(p for p, _ in perm)))
+        got = paths_to_dict(list(perm))
+        if got != plain:
+            acc.violate(fw.violation(
+                'C17.enum', 'paths_to_dict-depends-on-order',
+                f'paths_to_dict({list(perm)}) = {got}, expected {plain}',
+                {'law': 'unordered', 'tree': shape}))
+            return
+
+
 def _sub(tree, path):
     for k in path:
         tree = tree[k]
@@ -261,6 +353,10 @@ def _sub(tree, path):
 
 
 def run_tree(job, acc):
+    if job[0] == 'establish':
+        return run_establish(job, acc)
+    if job[0] == 'unordered':
+        return run_unordered(job, acc)
     if job[0] == 'move':
         run_moves(job, acc)
         return
@@ -539,6 +635,8 @@ def run(ctx):
     jobs += [('move', t) for t in (trees(2) if ctx.quick else trees(3))
              if isinstance(t, dict)]
     jobs += [('process-node', t) for t in trees(2) if isinstance(t, dict)]
+    jobs += [('establish', loc) for loc in ((), ('c',), ('c', 'd'))]
+    jobs += [('unordered', t) for t in trees(3) if isinstance(t, dict)]
     acc = ctx.map(run_tree, jobs)
     norm_jobs(acc)
     return acc
@@ -548,6 +646,10 @@ def replay(case):
     acc = fw.Acc()
     if case['law'] == 'norm':
         norm_jobs(acc)
+    elif case['law'] == 'establish':
+        run_establish(('establish', tuple(case['loc'])), acc)
+    elif case['law'] == 'unordered':
+        run_unordered(('unordered', case['tree']), acc)
     elif case['law'] == 'process-node':
         run_process_node(('process-node', case['tree']), acc)
     elif case['law'] == 'move':
@@ -564,3 +666,6 @@ RULE += (
 
 RULE += (
     " Deep move: a subtree re-attached below a NEW intermediate branch (('via', 'moved')) - every moved node's path_for()/path_to() names the new place. Process-node law: '..' from a node that holds a Process reaches its parent and the walk continues from there, as for any leaf.")
+
+RULE += (
+    " Establish law: a port of a process (at the root, one and two compartments deep) wired to EVERY path of length <= 4 over {a (exists), n, m (new), ..} that stays inside the hierarchy: the variable lives at the normal form of the path, walking the path reaches that node, no store is named '..'. paths_to_dict inverts EVERY permutation of the leaf list of trees with <= 4 leaves.")
